@@ -503,6 +503,8 @@ class Engine:
             return mk("bytes", smt.cat_all([as_bytes_term(x) for x in items]))
         if name == "strip" and not args:
             return mk("bytes", M.bytes_strip(as_bytes_term(val)))
+        if name == "lower" and not args:
+            return mk("bytes", M.bytes_lower(as_bytes_term(val)))
         raise Undecided(f"bytes.{name}")
 
     def str_method(self, c, val, name, args, kwargs, node):
@@ -533,6 +535,11 @@ class Engine:
                     raise py_exc(UnicodeEncodeError)
                 return SV("bytes", smt.utf8_enc(t))
             raise Undecided(f"encode({enc!r})")
+        if name == "join" and isinstance(args[0], Ref) and isinstance(c.cell(args[0]).data, SymSeq):
+            # join of an abstract list of strings: an unspecified string (only its identity matters to the callers under contract)
+            r = SV("str", smt.fresh(smt.S, "joined"))
+            c.ghost["$joined"] = r
+            return r
         if name == "join":
             items = self.interp.iterate(c, args[0], node)
             parts = []
